@@ -633,9 +633,26 @@ func ruleJSONProtocol(c *Ctx) {
 				ast.Inspect(cc, func(y ast.Node) bool {
 					switch z := y.(type) {
 					case *ast.CallExpr:
-						if id, ok := z.Fun.(*ast.Ident); ok && id.Name == "append" && len(z.Args) == 2 {
-							if v := constOf(info, z.Args[1]); v != nil && v.Kind() == constant.String {
-								seen[name] = constant.StringVal(v)
+						if id, ok := z.Fun.(*ast.Ident); ok && id.Name == "append" && len(z.Args) >= 2 {
+							// append(j.data, "lit"...) or append(j.data, 'a', 'b'): the bytes appended
+							sep, all := "", true
+							for _, a := range z.Args[1:] {
+								v := constOf(info, a)
+								switch {
+								case v != nil && v.Kind() == constant.String:
+									sep += constant.StringVal(v)
+								case v != nil && v.Kind() == constant.Int:
+									if i, ok := constant.Int64Val(v); ok && i >= 0 && i < 256 {
+										sep += string([]byte{byte(i)})
+									} else {
+										all = false
+									}
+								default:
+									all = false
+								}
+							}
+							if all {
+								seen[name] += sep
 							}
 						}
 					case *ast.AssignStmt:
